@@ -141,7 +141,7 @@ def bStat (tr : Bool) (env : Env) : Stat → List Occ × Env
   | .do_ b _ => ((bBlock tr env b).1, env)
   | .while_ c b _ => (bExp tr env c ++ (bBlock tr env b).1, env)
   | .repeat_ b c _ => ((bBlock tr env b).1 ++ bExp tr (bBlock tr env b).2 c, env)
-  | .if_ cs bs _ => (bExps tr env cs ++ bBlocks tr env bs, env)
+  | .if_ cs bs _ _ => (bExps tr env cs ++ bBlocks tr env bs, env)
   | .fornum v vl i lim st b _ =>
     (bExp tr env i ++ bExp tr env lim ++ bExp tr env st ++
       [declOcc v vl ⟨vl.sl, vl.sc, (blockLoc b).sl, (blockLoc b).sc⟩ "F"] ++ (bBlock tr ((v, vl) :: env) b).1, env)
